@@ -42,6 +42,8 @@ type EntryReport struct {
 	Scripts      map[string]string // label -> standalone SMT script of one discharged query (for cross-checking)
 	Inputs       []string
 	EngineErrors []string
+	ForkSites    map[string]int
+	Panics       map[string]int
 	Expected     []string // kind|label of every vp.Assert/Reach/Note call site reachable from the entry (static)
 }
 
@@ -60,7 +62,7 @@ type LabelStat struct {
 }
 
 func (p *Program) Explore(entry *ssa.Function, cfg ExploreCfg) *EntryReport {
-	rep := &EntryReport{Entry: entry.Name(), Outcomes: map[string]int{}, Unsupported: map[string]int{}, PerLabel: map[string]*LabelStat{}, Scripts: map[string]string{}}
+	rep := &EntryReport{Entry: entry.Name(), Outcomes: map[string]int{}, Unsupported: map[string]int{}, PerLabel: map[string]*LabelStat{}, Scripts: map[string]string{}, ForkSites: map[string]int{}, Panics: map[string]int{}}
 	t0 := time.Now()
 	var mu sync.Mutex
 	cond := sync.NewCond(&mu)
@@ -121,6 +123,9 @@ func (p *Program) Explore(entry *ssa.Function, cfg ExploreCfg) *EntryReport {
 			mu.Lock()
 			active--
 			rep.Outcomes[res.Outcome]++
+			if res.Outcome == "panic" {
+				rep.Panics[res.Msg]++
+			}
 			if res.Outcome == "unsupported" || res.Outcome == "engine-error" || res.Outcome == "unwind" {
 				rep.Unsupported[res.Msg]++
 			}
